@@ -70,7 +70,7 @@ def verify_one(args):
                          "known_ids": list(getattr(o, "known_ids", []) or [])})
         return {"qual": qual, "shard": initial, "relpath": con.relpath, "ast_hash": res.ast_hash, "paths": res.paths,
                 "feasible": res.feasible_paths, "outcomes": res.outcomes, "wall": res.wall,
-                "inlined": sorted(res.inlined), "obligations": obls, "error": None,
+                "inlined": sorted(res.inlined), "assumed": sorted(res.assumed), "notes": sorted(res.notes), "obligations": obls, "error": None,
                 "solver_s": solve.STATS["solver_s"], "cross": solve.CROSS, "stats": dict(solve.STATS)}
     except Exception as ex:
         kind = type(ex).__name__
@@ -101,6 +101,7 @@ def merge_shards(rs, quals):
             m["outcomes"][k] = m["outcomes"].get(k, 0) + v
         m["obligations"] += r["obligations"]
         m["inlined"] = sorted(set(m["inlined"]) | set(r["inlined"]))
+        m["assumed"] = sorted(set(m.get("assumed", [])) | set(r.get("assumed", [])))
         m["cross"] += r.get("cross", [])
     return [out[q] for q in quals if q in out]
 
@@ -176,7 +177,7 @@ def run_property(pid, tier):
     for r in results:
         functions.append({"qualname": r["qual"], "file": r["relpath"], "ast_hash": r["ast_hash"], "paths": r["paths"],
                           "feasible_paths": r["feasible"], "outcomes": r["outcomes"], "wall_s": round(r["wall"], 2),
-                          "inlined_callees": r["inlined"]})
+                          "inlined_callees": r["inlined"], "assumed_callee_contracts": r.get("assumed", [])})
         if r["error"]:
             if r.get("error_kind") in ("Unsupported", "BindingError"):
                 rep.undecided.append("%s: %s" % (r["qual"], r["error"]))
@@ -332,6 +333,9 @@ def run_property(pid, tier):
     level = getattr(prop, "LEVEL", "other")
     assumptions = [k + ": " + v for k, v in STANDING_ASSUMPTIONS.items() if k in getattr(prop, "ASSUMES", STANDING_ASSUMPTIONS.keys())]
     assumptions += list(getattr(prop, "EXTRA_ASSUMPTIONS", []))
+    used = sorted(set(a for r in results for a in r.get("assumed", [])))
+    if used:
+        assumptions.append("ASSUMED callee contracts applied at call sites in this run (bodies not verified): " + ", ".join(used))
     assumptions += scan_assumptions(prop)
     cross = []
     for r in results:
